@@ -186,6 +186,8 @@ def _pure(e) -> bool:
     attribute chains, and displays / arithmetic of those."""
     if isinstance(e, (ast.Constant, ast.Name)):
         return True
+    if isinstance(e, ast.Call) and isinstance(e.func, ast.Name) and e.func.id == "super" and not e.args and not e.keywords:
+        return True  # binding the super proxy: no effect, no dependence on mutable state
     if isinstance(e, ast.Attribute):
         return _pure(e.value)
     if isinstance(e, (ast.Tuple, ast.List)):
